@@ -18,15 +18,16 @@ RULE = ("histories of add/remove/remove-absent/add-present/draw/contains/len/ite
         "to last-inserted / first-slot / only-element removals and drain-to-empty-then-refill; a case is one whole "
         "history; non-trivial = it contains >=1 middle-slot removal and >=1 removal to empty; distinct = SHA-1 of "
         "the concrete operation sequence")
+RULE += ("; rounds k-l added: " + 'per batch one large history: 1 050..1 700 members, then shrunk by removals in arbitrary order to n/3 .. 3 with re-insertions, repeated removals and draws on the way, full looks at 4 points; closing drain-and-refill phase after a quarter of the small histories (always when the private containers disagree)')
 ASSUMPTIONS = ["model = builtin set", "draw() is observed through the module-level random used by draw_set.py; "
                "if no choice() call is seen the exact drawability part falls back to seeded sampling",
                "the look at the private containers (_edges/_edge_hashmap agree) is a diagnostic that only decides how hard a history is driven on (closing drain and refill); verdicts come from len, iteration, membership, draws and raises alone"]
 HEADLINE = ["ops", "add_new", "add_present", "remove_present", "remove_middle", "remove_last_slot", "remove_to_empty",
-            "remove_absent_raised", "draws", "exact_draw_points", "invariant_evals"]
+            "remove_absent_raised", "draws", "exact_draw_points", "invariant_evals", "large_histories_grown_past_1000_and_shrunk", "closing_drain_and_refill_phases"]
 REQUIRED = {"quick": {"remove_middle": 50, "remove_to_empty": 50, "remove_absent_raised": 50, "add_present": 50,
-                      "draws": 500, "draw_points": 50},
+                      "draws": 500, "draw_points": 50, "large_histories_grown_past_1000_and_shrunk": 10, "closing_drain_and_refill_phases": 100},
             "thorough": {"remove_middle": 500, "remove_to_empty": 500, "remove_absent_raised": 500, "add_present": 500,
-                         "draws": 5000, "draw_points": 500}}
+                         "draws": 5000, "draw_points": 500, "large_histories_grown_past_1000_and_shrunk": 100, "closing_drain_and_refill_phases": 1000}}
 SHARD_TIMEOUT = {"quick": 300, "thorough": 3600}
 
 
